@@ -4,6 +4,21 @@
 
 package casblob
 
+//@ func GetUncompressedReadCloser(zstd zstdimpl.ZstdImpl, f *os.File, expectedSize int64, offset int64) (io.ReadCloser, error)
+//@   trusted
+//@   requires f != nil && zstd != nil
+//@   ensures (result1 == nil) <==> (result0 != nil)
+
+//@ func GetZstdReadCloser(zstd zstdimpl.ZstdImpl, f *os.File, expectedSize int64, offset int64) (io.ReadCloser, error)
+//@   trusted
+//@   requires f != nil && zstd != nil
+//@   ensures (result1 == nil) <==> (result0 != nil)
+
+//@ func GetLegacyZstdReadCloser(zstd zstdimpl.ZstdImpl, f *os.File) (io.ReadCloser, error)
+//@   trusted
+//@   requires f != nil && zstd != nil
+//@   ensures (result1 == nil) <==> (result0 != nil)
+
 //@ func WriteAndClose(zstd zstdimpl.ZstdImpl, r io.Reader, f *os.File, t CompressionType, hash string, size int64) (int64, error)
 //@   trusted
 //@   ensures result1 == nil ==> (0 <= result0 && result0 <= B62())
